@@ -3,6 +3,7 @@ import DvcData.Model.Basic
 import DvcData.Model.Merge
 import DvcData.Model.Md5
 import DvcData.Model.Hash
+import DvcData.Model.Tree
 open Lean DvcData
 
 /-! Line-protocol driver: one JSON request per line on stdin, one JSON answer per line on stdout.
@@ -78,6 +79,132 @@ def opDos2Unix (j : Json) : Except String Json := do
   pure (Json.mkObj [("r", Json.arr (bs.map (fun b => Json.str (hex (Hash.dos2unix b)))).toArray),
     ("u2d", Json.arr (bs.map (fun b => Json.str (hex (Hash.unix2dos b)))).toArray)])
 
+/-! ### JSON <-> model values -/
+open Json (JVal JObj) in
+def jvalOf (j : Lean.Json) : Except String JVal :=
+  match j with
+  | .str s => pure (.str s.toList)
+  | .bool b => pure (.bool b)
+  | .null => pure .null
+  | .num n => if n.exponent = 0 ∧ n.mantissa ≥ 0 then pure (.int n.mantissa.toNat) else throw "bad num"
+  | _ => throw "bad jval"
+
+def jvalTo : Json.JVal → Lean.Json
+  | .str s => .str (String.mk s)
+  | .int n => .num n
+  | .bool b => .bool b
+  | .null => .null
+
+/-- a dict travels as a list of [key, value] pairs so that insertion order is preserved -/
+def jobjOf (j : Lean.Json) : Except String Json.JObj := do
+  (← j.getArr?).toList.mapM fun p => do
+    match (← p.getArr?).toList with
+    | [k, v] => pure ((← k.getStr?).toList, ← jvalOf v)
+    | _ => throw "pair expected"
+
+def jobjTo (o : Json.JObj) : Lean.Json :=
+  Lean.Json.arr (o.map fun p => Lean.Json.arr #[.str (String.mk p.1), jvalTo p.2]).toArray
+
+def keyOf (j : Lean.Json) : Except String Path.Key := do
+  (← j.getArr?).toList.mapM fun p => do pure (← p.getStr?).toList
+
+def keyTo (k : Path.Key) : Lean.Json := Lean.Json.arr (k.map fun p => Lean.Json.str (String.mk p)).toArray
+
+def optStrOf (j : Lean.Json) (f : String) : Except String (Option (List Char)) :=
+  match j.getObjVal? f with
+  | .ok (.str s) => pure (some s.toList)
+  | .ok .null => pure none
+  | .error _ => pure none
+  | _ => throw s!"bad field {f}"
+
+def optNatOf (j : Lean.Json) (f : String) : Except String (Option Nat) :=
+  match j.getObjVal? f with
+  | .ok (.num n) => if n.exponent = 0 ∧ n.mantissa ≥ 0 then pure (some n.mantissa.toNat) else throw "bad num"
+  | .ok .null => pure none
+  | .error _ => pure none
+  | _ => throw s!"bad field {f}"
+
+def boolOf (j : Lean.Json) (f : String) : Bool :=
+  match j.getObjVal? f with | .ok (.bool b) => b | _ => false
+
+def metaOf (j : Lean.Json) : Except String (Option MetaInfo.Meta) :=
+  match j with
+  | .null => pure none
+  | j => do
+    pure (some { isdir := boolOf j "isdir", size := ← optNatOf j "size", nfiles := ← optNatOf j "nfiles",
+                 isexec := boolOf j "isexec", versionId := ← optStrOf j "version_id",
+                 etag := ← optStrOf j "etag", checksum := ← optStrOf j "checksum",
+                 md5 := ← optStrOf j "md5", inode := ← optNatOf j "inode", mtime := ← optNatOf j "mtime",
+                 remote := ← optStrOf j "remote" })
+
+def optS (o : Option (List Char)) : Lean.Json := match o with | some s => .str (String.mk s) | none => .null
+def optN (o : Option Nat) : Lean.Json := match o with | some n => .num n | none => .null
+
+def metaTo : Option MetaInfo.Meta → Lean.Json
+  | none => .null
+  | some m => Lean.Json.mkObj [("isdir", .bool m.isdir), ("size", optN m.size), ("nfiles", optN m.nfiles),
+      ("isexec", .bool m.isexec), ("version_id", optS m.versionId), ("etag", optS m.etag),
+      ("checksum", optS m.checksum), ("md5", optS m.md5), ("inode", optN m.inode), ("mtime", optN m.mtime),
+      ("remote", optS m.remote)]
+
+def hiOf (j : Lean.Json) : Except String (Option MetaInfo.HashInfo) :=
+  match j with
+  | .null => pure none
+  | j => do pure (some { name := ← optStrOf j "name", value := ← optStrOf j "value" })
+
+def hiTo : Option MetaInfo.HashInfo → Lean.Json
+  | none => .null
+  | some h => Lean.Json.mkObj [("name", optS h.name), ("value", optS h.value)]
+
+def treeOf (j : Lean.Json) : Except String Tree.Tree := do
+  (← j.getArr?).toList.mapM fun e => do
+    pure (← keyOf (← e.getObjVal? "key"), (← metaOf (e.getObjVal? "meta" |>.toOption.getD .null),
+          ← hiOf (e.getObjVal? "hi" |>.toOption.getD .null)))
+
+def treeTo (t : Tree.Tree) : Lean.Json :=
+  Lean.Json.arr (t.map fun e => Lean.Json.mkObj [("key", keyTo e.1), ("meta", metaTo e.2.1), ("hi", hiTo e.2.2)]).toArray
+
+def md5Chars (cs : List Char) : List Char := (Md5.hex (String.mk cs).toUTF8).toList
+
+def opTreeBytes (j : Lean.Json) : Except String Lean.Json := do
+  let t ← treeOf (← j.getObjVal? "entries")
+  let w := boolOf j "with_meta"
+  let b := Tree.asBytes w t
+  pure (Lean.Json.mkObj [("bytes", String.mk b), ("oid", String.mk (Tree.digest md5Chars t)),
+    ("reparsed_ok", .bool (Json.parseList b == some ((Tree.asList w t).map Json.sortKeys)))])
+
+def opTreeFromList (j : Lean.Json) : Except String Lean.Json := do
+  let l ← (← arr j "list").toList.mapM jobjOf
+  let hn ← optStrOf j "hash_name"
+  match Tree.fromList hn l with
+  | some t => pure (Lean.Json.mkObj [("tree", treeTo t)])
+  | none => pure (Lean.Json.mkObj [("err", "crash")])
+
+def opTreeParse (j : Lean.Json) : Except String Lean.Json := do
+  let b ← str j "bytes"
+  match Json.parseList b.toList with
+  | some l => pure (Lean.Json.mkObj [("list", Lean.Json.arr (l.map jobjTo).toArray)])
+  | none => pure (Lean.Json.mkObj [("err", "parse")])
+
+def opSubtree (j : Lean.Json) : Except String Lean.Json := do
+  let t ← treeOf (← j.getObjVal? "entries")
+  let p ← keyOf (← j.getObjVal? "prefix")
+  let st := Tree.subtree t p
+  pure (Lean.Json.mkObj [("tree", treeTo st), ("oid", String.mk (Tree.digest md5Chars st)),
+                         ("filter", treeTo (Tree.filter t p))])
+
+def opEscRange (j : Lean.Json) : Except String Lean.Json := do
+  let lo ← nat j "lo"
+  let hi ← nat j "hi"
+  let cps := (List.range (hi - lo)).map (· + lo) |>.filter fun n => n < 55296 ∨ (57343 < n ∧ n < 1114112)
+  pure (Lean.Json.mkObj [("esc", Lean.Json.arr (cps.map fun n => Lean.Json.str (String.mk (Json.esc [Char.ofNat n]))).toArray)])
+
+def opPath (j : Lean.Json) : Except String Lean.Json := do
+  let ks ← (← arr j "keys").toList.mapM keyOf
+  let ss ← strList j "strings"
+  pure (Lean.Json.mkObj [("joined", Lean.Json.arr (ks.map fun k => Lean.Json.str (String.mk (Path.joinC k))).toArray),
+    ("split", Lean.Json.arr (ss.map fun s => keyTo (Path.splitC s.toList)).toArray)])
+
 def kindOf (s : String) : Except String Merge.Kind :=
   match s with
   | "add" => pure .add | "remove" => pure .remove | "change" => pure .change
@@ -100,6 +227,12 @@ def dispatch (j : Json) : Except String Json := do
   | "textchars" => opTextChars j
   | "istextblock" => opIsTextBlock j
   | "dos2unix" => opDos2Unix j
+  | "tree_bytes" => opTreeBytes j
+  | "tree_fromlist" => opTreeFromList j
+  | "tree_parse" => opTreeParse j
+  | "subtree" => opSubtree j
+  | "esc_range" => opEscRange j
+  | "path" => opPath j
   | "ping" => pure (Json.mkObj [("pong", true)])
   | op => throw s!"unknown op {op}"
 
